@@ -91,6 +91,21 @@ def generate(rng, tier):
         files.append(f)
         files += corpus.mutations(rng, f, 300 if thorough else 24)
     files += corpus.random_strings(rng, 600 if thorough else 50, 65536 if thorough else 300)
+    # a block that claims to reach (just) beyond offset 65535 of a short file: offset + length must be compared in more than
+    # 16 bits.  The block sits behind a filler block so that offset + declared length wraps to a small value.
+    from vlib.skyb import make_file
+    for filler in (200, 250, 256, 300, 1000):
+        for typ in (1, 2, 5, 4):
+            body = rand_bytes(rng, 27)
+            f = bytearray(make_file([(3, rand_bytes(rng, filler)), (typ, bytes(body))], 1))
+            pos = len(f) - len(body) - 2          # the length field of the last block
+            start = pos + 2
+            for declared in (65535, 65280 + (len(body) & 255), 65536 - start, 65536 - start + 1, 65536 - start + len(body), 65536 - start - 1):
+                if 0 <= declared <= 65535:
+                    g = bytearray(f)
+                    g[pos] = declared & 255
+                    g[pos + 1] = declared >> 8
+                    files.append(bytes(g))
     for f in files:
         h = hx(f)
         for k in "tlyr":
